@@ -803,6 +803,7 @@ class Dataset(AutoSerialize):
         # Normalize index into tuple form
         if not isinstance(index, tuple):
             index = (index,)
+        raw_index = index
 
         # Expand Ellipsis
         if Ellipsis in index:
@@ -816,6 +817,22 @@ class Dataset(AutoSerialize):
 
         # Compute which dimensions are kept
         kept_axes = [i for i, idx in enumerate(index) if not isinstance(idx, (int, np.integer))]
+
+        # Index arrays (lists) are broadcast by NumPy into ONE output axis; it takes the place of
+        # the advanced indices (arrays and integers) when these are adjacent and comes first
+        # otherwise. It carries the calibration of the first array-indexed axis.
+        array_axes = [i for i in kept_axes if not isinstance(index[i], slice)]
+        if array_axes:
+            sliced = [i for i in kept_axes if isinstance(index[i], slice)]
+            advanced = [
+                k
+                for k, idx in enumerate(raw_index)
+                if not isinstance(idx, slice) and idx is not Ellipsis
+            ]
+            adjacent = advanced[-1] - advanced[0] + 1 == len(advanced)
+            first_advanced = min(i for i, idx in enumerate(index) if not isinstance(idx, slice))
+            n_before = sum(i < first_advanced for i in sliced) if adjacent else 0
+            kept_axes = sliced[:n_before] + array_axes[:1] + sliced[n_before:]
 
         # Slice/reduce metadata accordingly
         new_origin = (
